@@ -53,6 +53,8 @@ type vpWorld struct {
 	g0, gmin int
 	wrote    []int // number of packets on the wire after each handler invocation
 	restarts []bool
+	scriptSecond bool // the second invocation follows a script too
+	finishSecond bool // ... which finishes the session instead of registering a continuation
 	setup    int // number of leading invocations that follow a fixed script (reply + continuation)
 }
 
@@ -116,6 +118,25 @@ func (h *vpHandler) Handle(resp Response, req Request) {
 		resp.Next(n)
 		w.nextHid[sid] = n.id
 		w.maxSeq[sid] = seq + 1
+		w.sample()
+		return
+	}
+	if w.scriptSecond && len(w.invokes) == 2 {
+		// scripted second invocation
+		resp.Reply(NewAuthenReply(SetAuthenReplyStatus(AuthenStatusGetPass), SetAuthenReplyServerMsg("m")))
+		w.replies++
+		w.wrote = append(w.wrote, len(w.conn.out)-before)
+		w.restarts = append(w.restarts, false)
+		if w.finishSecond {
+			delete(w.nextHid, sid)
+			delete(w.maxSeq, sid)
+		} else {
+			n := &vpHandler{w: w, id: w.nextID}
+			w.nextID++
+			resp.Next(n)
+			w.nextHid[sid] = n.id
+			w.maxSeq[sid] = seq + 1
+		}
 		w.sample()
 		return
 	}
@@ -265,4 +286,35 @@ func vpH_C20_conn() {
 	vpAssert(vpMetric(w.gauge) == w.g0, "C20.sessions_active-returns-to-rest")
 	vpAssert(vpMetric("tacquito_handle_handlers") == h0, "C20.handle_handlers-returns-to-rest")
 	vpReach("C20.conn.end")
+}
+
+// three packets: the first two follow a fixed script (each reply registers a continuation, or
+// the second one finishes the session), the third one is free.  Covers replays of the middle
+// packet and packets arriving after a session has finished without the cost of three free packets.
+func vpH_C08_three__2(c int) {
+	sidA, sidB := vpU32(), vpU32()
+	vpAssume(sidA != sidB)
+	in := vpPktBytes(vpPkt{sid: sidA, seq: 1, typ: 1}, nil)
+	second := sidA
+	secondSeq := uint8(3)
+	if c == 1 {
+		second, secondSeq = sidB, 1 // another session in between
+	}
+	in = append(in, vpPktBytes(vpPkt{sid: second, seq: secondSeq, typ: 1}, nil)...)
+	p3 := vpPkt{sid: sidA, seq: vpU8(), typ: uint8(vpInt(1, 3))}
+	if vpBool() {
+		p3.sid = sidB
+	}
+	vpAssume(p3.seq >= 1)
+	in = append(in, vpPktBytes(p3, nil)...)
+	conn := newVPConn(in)
+	conn.log = &vpEventLog{}
+	w := newVPWorld(conn)
+	w.setup = 1        // first packet: reply + continuation
+	w.finishSecond = vpBool() // second packet: finish the session (no continuation) or go on
+	w.scriptSecond = true
+	vpRunLoop(in, w)
+	vpAssert(conn.closes >= 1, "C08.three.closed-at-end")
+	vpAssert(len(w.invokes) >= 2, "C08.three.scripted-packets-dispatched")
+	vpReach("C08.three.end")
 }
